@@ -8,6 +8,7 @@ import (
 	"context"
 	"fmt"
 	"sort"
+	"strconv"
 	"strings"
 	"sync"
 	"time"
@@ -66,6 +67,7 @@ func Main(c *run.Ctx) {
 		c.Floor("proto:"+p, 1, 0)
 	}
 	c.Floor("multi-chunk bodies", 2, 0)
+	c.Floor("influx bodies with several numeric fields on a line", c.Pick(100, 2000), 0)
 	c.Floor("bodies read by a late reader: single-portion", c.Pick(20, 400), 0)
 	c.Floor("bodies read by a late reader: multi-portion", c.Pick(3, 60), 0)
 	c.Floor("multi-stream bodies checked for stream isolation", c.Pick(100, 2000), 0)
@@ -324,6 +326,105 @@ func influxLookalikes(c *run.Ctx, gi int) {
 	}
 }
 
+// influxFields: a line of the line protocol may carry several numeric fields; each field is a series of its own
+// (__name__ = the field's name, the line's tags), and every field's sample belongs to that series. The fields of
+// a line carry pairwise different values, so a sample identifies its field.
+func influxFields(c *run.Ctx, gi int) {
+	r := c.Rng(fmt.Sprintf("c03/fields/%d", gi))
+	names := []string{"usage_user", "usage_system", "idle", "load1", "n", "bytes_in", "bytes_out", "temp"}
+	var sb strings.Builder
+	type exp struct {
+		field, sid string
+		ts         int64
+		val        float64
+	}
+	var want []exp
+	nl := 1 + r.Intn(4)
+	for l := 0; l < nl; l++ {
+		sid := fmt.Sprintf("sid-if%d-%d", gi, l)
+		ts := int64(1700000000000000000) + int64(r.Intn(86400))*1e9 + int64(l)
+		nf := 2 + r.Intn(3)
+		perm := r.Perm(len(names))
+		sb.WriteString("cpu,sid=" + sid + ",host=h" + strconv.Itoa(r.Intn(3)) + " ")
+		for f := 0; f < nf; f++ {
+			v := float64(1000*(l+1)+f*10) + float64(r.Intn(4))*0.25
+			if f > 0 {
+				sb.WriteString(",")
+			}
+			if v == float64(int64(v)) && r.Intn(2) == 0 {
+				sb.WriteString(names[perm[f]] + "=" + strconv.FormatInt(int64(v), 10) + "i")
+			} else {
+				sb.WriteString(names[perm[f]] + "=" + strconv.FormatFloat(v, 'f', -1, 64))
+			}
+			want = append(want, exp{names[perm[f]], sid, ts, v})
+		}
+		sb.WriteString(" " + strconv.FormatInt(ts, 10) + "\n")
+	}
+	body := sb.String()
+	nameOf := map[uint64]string{} // fingerprint -> "__name__|sid" of its series document
+	type smp struct {
+		fp  uint64
+		ts  int64
+		val float64
+	}
+	var got []smp
+	var perr error
+	for rsp := range isoParsers["influx-metric"](parserCtx(), bytes.NewReader([]byte(body)), nocache{}) {
+		if rsp.Error != nil {
+			perr = rsp.Error
+			continue
+		}
+		if ts, ok := rsp.TimeSeriesRequest.(*wmodel.TimeSeriesData); ok && ts != nil {
+			for k, doc := range ts.MLabels {
+				if m, err := gen.StrictJSONStringMap([]byte(doc)); err == nil {
+					var n, sid string
+					for _, l := range m {
+						if l[0] == "__name__" {
+							n = l[1]
+						} else if l[0] == "sid" {
+							sid = l[1]
+						}
+					}
+					nameOf[ts.MFingerprint[k]] = n + "|" + sid
+				}
+			}
+		}
+		if sp, ok := rsp.SamplesRequest.(*wmodel.TimeSamplesData); ok && sp != nil {
+			for k := range sp.MFingerprint {
+				got = append(got, smp{sp.MFingerprint[k], sp.MTimestampNS[k], sp.MValue[k]})
+			}
+		}
+	}
+	if perr != nil {
+		c.Cover("influx multi-field lines", "a body was rejected (not judged)", 1)
+		return
+	}
+	c.Floor("influx bodies with several numeric fields on a line", 0, 1)
+	for _, w := range want {
+		found, where := false, ""
+		for _, g := range got {
+			if g.ts == w.ts && g.val == w.val {
+				found = true
+				where = nameOf[g.fp]
+				break
+			}
+		}
+		if !found {
+			c.Violation("influx-field/sample-missing", fmt.Sprintf("influx line with several fields: no sample for field %s=%v of stream %s; body %q", w.field, w.val, w.sid, body),
+				map[string]any{"case_index": gi, "body": body})
+			return
+		}
+		if where != w.field+"|"+w.sid {
+			c.Violation("influx-field/sample-in-another-fields-series", fmt.Sprintf("influx line with several fields: the sample of field %s (value %v, stream %s) carries the fingerprint of series %q; body %q", w.field, w.val, w.sid, where, body),
+				map[string]any{"case_index": gi, "body": body})
+			return
+		}
+	}
+	if len(got) != len(want) {
+		c.Violation("influx-field/sample-count", fmt.Sprintf("influx lines with %d numeric fields in all produced %d samples; body %q", len(want), len(got), body), map[string]any{"case_index": gi, "body": body})
+	}
+}
+
 func keysOf(m map[string]bool) []string {
 	out := make([]string, 0, len(m))
 	for k := range m {
@@ -381,6 +482,10 @@ func Child(c *run.Ctx, name string) {
 			Hostile: r.Intn(2) == 0, BaseNs: 1700000000000000000 + int64(r.Intn(86400*3))*1e9}
 		if gi%37 == 5 || gi%37 == 6 {
 			o.Big = true
+			// the flush thresholds themselves: exactly 1000 / 2000 / 3000 points, one below, one above
+			if x := []int{0, 1000, 2000, 999, 0, 1001, 3000, 0}[(gi/37)%8]; x > 0 {
+				o.Exact = x
+			}
 		}
 		o.TTLLabel = gi%4 == 1 || o.Big && gi%2 == 0
 		o.Unordered = gi%3 == 1
@@ -395,6 +500,9 @@ func Child(c *run.Ctx, name string) {
 		}
 		if gi%10 == 4 {
 			influxLookalikes(c, gi)
+		}
+		if gi%10 == 7 {
+			influxFields(c, gi)
 		}
 		if gi%50 == 9 || gi%185 == 5 { // 185 = 5*37: big bodies (several portions), every protocol in turn
 			late.Add(1)
